@@ -42,7 +42,8 @@ class Contract:
     self.always = list(kw.pop('always', ()))        # clauses checked on normal AND exceptional exit
     self.note = kw.pop('note', '')
     self.canary = kw.pop('canary', True)
-    self.at_release = dict(kw.pop('at_release', {}))   # lock expr -> clauses that must hold whenever it is released
+    self.at_release = dict(kw.pop('at_release', {}))
+    self.at_wait = dict(kw.pop('at_wait', {}))         # condition expr -> clauses (over the locals) that must hold whenever it is waited on   # lock expr -> clauses that must hold whenever it is released
     self.site_ghost = dict(kw.pop('site_ghost', {}))   # ghost name -> fn(interp, env): its value at a call site
     self.cond_tests = dict(kw.pop('cond_tests', {}))   # exit ('return' | exception) -> kinds of wake-up condition the callee tested
     self.abandon = kw.pop('abandon', False)          # generator: the consumer may close() it at any yield (GeneratorExit)
